@@ -5,7 +5,7 @@ from gen_http import Request, Header, Chunk
 
 HARNESS = "rx_driver"
 LEAN_MODULES = ["ViaProofs.C02"]
-LEMMA_MODULES = ['ViaProofs.Frag.Lines', 'ViaProofs.Frag.Headers', 'ViaProofs.Frag.Compose', 'ViaProofs.C01', 'ViaProofs.C05', 'ViaProofs.Trans.RL', 'ViaProofs.Trans.FL', 'ViaProofs.Trans.CH', 'ViaProofs.Trans.MH', 'ViaProofs.Trans.CK']
+LEMMA_MODULES = ['ViaProofs.Frag.Lines', 'ViaProofs.Frag.Headers', 'ViaProofs.Frag.Compose', 'ViaProofs.C01', 'ViaProofs.C05', 'ViaProofs.Trans.RL', 'ViaProofs.Trans.FL', 'ViaProofs.Trans.CH', 'ViaProofs.Trans.MH', 'ViaProofs.Trans.CK', 'ViaProofs.Trans.RQ', 'ViaProofs.Trans.RR']
 REQUIRED_THEOREMS = ['Via.C02_method_at_limit', 'Via.C02_method_beyond', 'Via.C02_uri_at_limit', 'Via.C02_uri_beyond', 'Via.C02_ws_before_target', 'Via.C02_content_length_invalid', 'Via.C02_content_length_too_large', 'Via.C02_content_length_at_limit', 'Via.C02_trace_with_body', 'Via.C02_trace_proposes_405', 'Via.C02_missing_host']
 LEVEL = "proof"
 LEVEL_TEXT = ("PROOF of the accept/reject decision at every limit value and of partition independence (via C01's fragmentation laws) on the model; translated parsers as C01; differential correspondence + by-construction verdicts for one-violation mutants (incl. as second message on a receiver, all chunk splits at the content limit). The 411 class is read-dependent by nature and checked only where a body byte shares the read with the end of the head.")
@@ -15,7 +15,7 @@ RULE = ("requests obtained from a well-formed one by ONE violating change of a k
         "construction, plus the at-limit twin that must be accepted; x partitions (whole, byte-wise, every single cut, "
         "structural cuts, cut right after the offending byte) x configurations; non-trivial = more than one read; "
         "distinct = distinct (class, config, bytes, partition)")
-TRUSTED_BASE = ["tools/cxx2lean.py (translator of the parse_char / parse state machines and of message_headers::parse and rx_chunk::parse: RL, FL, CH from the current C++ into Lean; the model is proved equal to the translation in ViaProofs/Trans)", "Lean 4.33 kernel", "axioms: propext, Classical.choice, Quot.sound at most",
+TRUSTED_BASE = ["tools/cxx2lean.py + tools/cxx2lean_rx.py (translator of the parse_char / parse state machines, message_headers::parse, rx_chunk::parse, rx_request / rx_response::parse and request_receiver / response_receiver::receive + clear from the current C++ into Lean; the model is proved equal to the translation in ViaProofs/Trans; NOT translated and mapped by name to model functions: the header look-ups of message_headers (find, content_length, is_chunked, expect_continue, close_connection))", "Lean 4.33 kernel", "axioms: propext, Classical.choice, Quot.sound at most",
                 "rx_driver harness + via_model driver", "strtol modelled as exact conversion with overflow -> -1"]
 ASSUMPTIONS = ["411 Length Required is inherently read-dependent (a head followed by nothing is a complete body-less request); "
                "it is checked only where body bytes share the read with the end of the head",
